@@ -1,96 +1,11 @@
-//! K3: leaf node layout (nomt/src/beatree/leaf/node.rs): what LeafBuilder writes, LeafNode reads back.
-//! Uses the unsafe `from_raw_parts` cell-pointer views: CBMC memory-safety checks stay ON here.
+//! K3 (leaf node layout, nomt/src/beatree/leaf/node.rs) -- NOT BUILT.
+//! A harness that built a leaf with LeafBuilder::{new,push_cell,finish} and read it back through
+//! LeafNode::{n,key,value,get} (one cell, symbolic key/value/flag, value length <= 6) ran CBMC out of
+//! memory (> 50 GB after 90 s of SSA conversion): the 4096-byte page with symbolic cell offsets and
+//! the `from_raw_parts` views is beyond this back end here.  The leaf layout is therefore not under
+//! contract; DESIGN.md says so under C01/C16.
 #![allow(unused_imports, dead_code)]
 use super::*;
-use crate::io::page_pool::verif_kani::{kani_page_pool, stub_alloc, stub_dealloc};
-
-/// Build a leaf with `n` cells (n concrete: harnesses for 1, 2, 3) with symbolic strictly ascending
-/// keys, symbolic values of symbolic lengths 0..=6 and symbolic overflow flags; then:
-///  * n(), key(i), value(i) return exactly what was pushed (value bytes, length, overflow flag);
-///  * get(key_i) finds cell i; get(k) for any other symbolic k is None;
-///  * cells are laid out back to back, the last one ending at PAGE_SIZE, none overlapping the
-///    cell-pointer area.
-/// Bounded in n and in the value lengths; keys/values/flags are fully symbolic.
-fn leaf_roundtrip(n: usize) {
-    const MAXV: usize = 6;
-    let pool = kani_page_pool();
-    let keys: [Key; 3] = kani::any();
-    let vals: [[u8; MAXV]; 3] = kani::any();
-    let lens: [usize; 3] = kani::any();
-    let ovf: [bool; 3] = kani::any();
-    let mut total = 0;
-    let mut i = 0;
-    while i < n {
-        kani::assume(lens[i] <= MAXV);
-        if i > 0 {
-            kani::assume(keys[i - 1] < keys[i]);
-        }
-        total += lens[i];
-        i += 1;
-    }
-    let mut b = LeafBuilder::new(&pool, n, total);
-    let mut i = 0;
-    while i < n {
-        b.push_cell(keys[i], &vals[i][..lens[i]], ovf[i]);
-        i += 1;
-    }
-    let leaf = b.finish();
-    assert!(leaf.n() == n);
-    let mut expect_start = PAGE_SIZE - total;
-    let mut i = 0;
-    while i < n {
-        assert!(leaf.key(i) == keys[i]);
-        let (v, o) = leaf.value(i);
-        assert!(o == ovf[i]);
-        assert!(v.len() == lens[i]);
-        let j: usize = kani::any();
-        kani::assume(j < MAXV);
-        if j < lens[i] {
-            assert!(v[j] == vals[i][j]);
-        }
-        // layout: value i starts where value i-1 ended; the first starts at PAGE_SIZE - total
-        assert!(v.as_ptr() as usize - leaf.inner.as_ptr() as usize == expect_start);
-        expect_start += lens[i];
-        match leaf.get(&keys[i]) {
-            Some((gv, go)) => {
-                assert!(go == ovf[i] && gv.len() == lens[i]);
-                assert!(gv.as_ptr() == v.as_ptr());
-            }
-            None => assert!(false, "pushed key not found"),
-        }
-        i += 1;
-    }
-    assert!(expect_start == PAGE_SIZE);
-    assert!(2 + 34 * n <= PAGE_SIZE - total);
-    let probe: Key = kani::any();
-    let mut is_member = false;
-    let mut i = 0;
-    while i < n {
-        if probe == keys[i] {
-            is_member = true;
-        }
-        i += 1;
-    }
-    assert!(leaf.get(&probe).is_some() == is_member);
-    kani::cover!(total > 0 && !is_member, "non-member probe reachable");
-    std::mem::forget(leaf);
-    std::mem::forget(pool);
-}
-
-macro_rules! leaf_harness {
-    ($name:ident, $n:expr) => {
-        #[kani::proof]
-        #[kani::unwind(5)]
-        #[kani::stub(crate::io::page_pool::PagePool::alloc, stub_alloc)]
-        #[kani::stub(crate::io::page_pool::PagePool::dealloc, stub_dealloc)]
-        fn $name() {
-            leaf_roundtrip($n);
-        }
-    };
-}
-leaf_harness!(leaf_build_read_roundtrip_1, 1);
-leaf_harness!(leaf_build_read_roundtrip_2, 2);
-leaf_harness!(leaf_build_read_roundtrip_3, 3);
 
 #[cfg(test)]
 include!("/verif/.build/playback/leaf_node.inc");
